@@ -378,7 +378,10 @@ impl TransactionCoordinator {
         // xmax is the last committed transaction from PageZero
         let xmax = {
             let last = self.get_last_committed();
-            if last == 0 { None } else { Some(last) }
+            // `last == 0` means that nothing after transaction 0 has committed yet. It still is
+            // an upper bound: without one, a snapshot taken now would later see every
+            // transaction that commits after it.
+            Some(last)
         };
 
         Ok(Snapshot::new(txid, xmin, xmax, active, aborted))
